@@ -33,7 +33,8 @@ RULE = ("parameter dictionaries of 1-7 entries over the supported value "
         "same object is saved again after further operations; results of single "
         "unpacked variations are saved under templates naming the unpacked "
         "parameter. "
-        "Extension-less file names are also loaded by the name they were saved with. ")
+        "Extension-less file names are also loaded by the name they were saved with. "
+        "Sets with members of mixed types. ")
 ASSUMPTIONS = ["lists do not contain arrays (the classes' own == cannot "
                "compare those, independent of serialisation)",
                "by-value comparison: a float32 may come back as a Python float "
@@ -89,6 +90,10 @@ def gen_value(rng, kind):
         return [[gen_value(rng, "pyint") for _ in range(int(rng.integers(0, 4)))]
                 for _ in range(int(rng.integers(1, 4)))] + ([[]] if rng.random() < 0.3 else [])
     if kind == "set":
+        if rng.random() < 0.3:
+            # members without a common order (numbers next to names)
+            return {int(rng.integers(-20, 20)), gen_value(rng, "str") or "auto",
+                    float(rng.integers(-40, 40)) / 4 + 0.125}
         if rng.random() < 0.5:
             return {int(x) for x in rng.integers(-20, 20, size=int(rng.integers(0, 6)))}
         return {gen_value(rng, "str") for _ in range(int(rng.integers(0, 5)))}
